@@ -11,5 +11,6 @@ CONSTANTS
   MaxB = 32
   MaxPa = 3
   TRem = {5}
+  FixedPlan = 0
 INVARIANTS Inv Refines LookupOK ChkOK CapacityOK
 CHECK_DEADLOCK FALSE
